@@ -253,7 +253,17 @@ class InlinePass(ir.passes.InPlacePass):
         # and replacing inputs with the corresponding values in the value map.
         # Update the value map with the new values.
 
-        nodes = [cloner.clone_node(node) for node in function]
+        nodes: list[ir.Node] = []
+        try:
+            for function_node in function:
+                nodes.append(cloner.clone_node(function_node))
+        except Exception:
+            # Do not leave the half-instantiated nodes registered as users of the
+            # caller's values (they are not part of any graph)
+            for new_node in nodes:
+                for i in range(len(new_node.inputs)):
+                    new_node.replace_input_with(i, None)
+            raise
         output_values = [value_map[output] for output in function.outputs]
         return nodes, output_values  # type: ignore[return-value]
 
